@@ -49,6 +49,16 @@ def split_url(url):
     return m.group(1), parts
 
 
+def _enc(rec, fn, *args):
+    """the encoder is called twice with the SAME argument objects; the second URL is the one that is judged and it must be
+    the first one again (an encoder must not leave anything behind in the caller's problem)"""
+    first = fn(*args)
+    second = fn(*args)
+    if first != second:
+        rec["second_encoding_differs"] = True
+    return second
+
+
 def run_case(case):
     from cspuz.puzzle import (nurikabe, sudoku, nurimisaki, slitherlink, masyu, yajilin, lits, norinori, heyawake,
                               compass, star_battle, aquarium, util)
@@ -57,7 +67,7 @@ def run_case(case):
     rec = {"case": case, "status": "ok", "exc": "", "frame_ok": False, "name": "", "width": -1, "height": -1, "extra": -1,
            "body": "", "body2": "", "expected_name": NAMES[mod], "has_decoder": False, "dec_status": "ok", "dec_h": -1,
            "dec_w": -1, "dec_cells": [], "dec_rooms": [], "dec_vals": [], "dec_clues": [], "legacy_applicable": False,
-           "legacy_same": True, "url": ""}
+           "legacy_same": True, "url": "", "second_encoding_differs": False}
     enc = dec = None
     legacy = None
     try:
@@ -71,7 +81,7 @@ def run_case(case):
             conv = yaj_to_str if mod == "yajilin" else (lambda x: x)
             back = yaj_to_int if mod == "yajilin" else (lambda x: x)
             problem = grid(case["cells"], h, w, conv)
-            url = m[0](problem)
+            url = _enc(rec, m[0], problem)
             rec["has_decoder"] = True
             try:
                 d = m[1](url)
@@ -93,7 +103,7 @@ def run_case(case):
             rooms = rooms_of(case["rgs"], w, sum(case["rgs"]) % 2)
             f = lits if mod == "lits" else norinori
             ser, des = (f.serialize_lits, f.deserialize_lits) if mod == "lits" else (f.serialize_norinori, f.deserialize_norinori)
-            url = ser(h, w, rooms)
+            url = _enc(rec, ser, h, w, rooms)
             rec["has_decoder"] = True
             try:
                 d = des(url)
@@ -112,7 +122,7 @@ def run_case(case):
             vals = list(case["vals"])
             if variant in (2, 3):
                 rooms, vals = list(reversed(rooms)), list(reversed(vals))
-            url = heyawake.serialize_heyawake(h, w, rooms, vals)
+            url = _enc(rec, heyawake.serialize_heyawake, h, w, rooms, vals)
             rec["has_decoder"] = True
             # the other documented input form: a list of rectangles (y0, x0, y1, x1, clue), when every room is one
             rects = []
@@ -139,17 +149,17 @@ def run_case(case):
                 rec["dec_status"] = type(e).__name__
         elif mod == "starbattle":
             bid = grid(case["rgs"], h, w)
-            url = star_battle.problem_to_pzv_url(h, case["vals"][0], bid)
+            url = _enc(rec, star_battle.problem_to_pzv_url, h, case["vals"][0], bid)
             rec["legacy_applicable"] = True
             legacy = PS.serialize_problem(PS.Rooms(), rooms_of(case["rgs"], w), height=h, width=w)
         elif mod == "aquarium":
             rooms = rooms_of(case["rgs"], w)
-            url = aquarium.problem_to_url(h, w, rooms, list(case["vals"][w:]), list(case["vals"][:w]))
+            url = _enc(rec, aquarium.problem_to_url, h, w, rooms, list(case["vals"][w:]), list(case["vals"][:w]))
             rec["legacy_applicable"] = True
             legacy = PS.serialize_problem(PS.Rooms(), rooms, height=h, width=w)
         elif mod == "compass":
             pos = [(c[0] // w, c[0] % w, c[1], c[3], c[2], c[4]) for c in case["clues"]]   # (y, x, up, left, down, right)
-            url = compass.to_puzz_link_url(h, w, pos)
+            url = _enc(rec, compass.to_puzz_link_url, h, w, pos)
             rec["has_decoder"] = True
             try:
                 dh, dw, res = compass.parse_puzz_link_url(url)
